@@ -14,6 +14,8 @@ MANIFEST_ENTRY = {
     "note": "The full verify/repair pipeline (Deferred chains through ValidatedExtendedURIProxy, CHKUploader, the storage servers) is not under contract: 'repaired shares validate under the original read-cap' and 'repair never alters good shares' are only covered at the three call sites named above. Hash trees are replaced by contract stubs (C35).",
     "technique": "contract-based deductive verification (pyvc VCs + z3, callee contracts for the hash trees); share distributions enumerated up to a bound",
 }
+MANIFEST_ENTRY["text"] += ' Bounded end-to-end stand-in (run-time contract, never counted as proved): contracts/grid_upload.py runs the real Uploader, server selector, Encoder, checker/verifier and repairer against real StorageServers on disk (contracts/real_grid.py) with read-only, full and failing servers and pre-existing shares, and compares results with ground truth read from the disks and with a reference encoding.'
+MANIFEST_ENTRY["technique"] += "; plus bounded end-to-end run-time scenario contracts on an in-process grid of the real components (stand-in, labelled bounded)"
 EXPLANATION = "Function contracts at the decision points of check/verify/repair."
 TRUSTED = ["IncompleteHashTree.set_hashes/needed_hashes/get_leaf behave as contracted in C35", "servers_of_happiness (C08)"]
 ASSUMPTIONS = []
